@@ -111,6 +111,20 @@ def AP.S (ap : AP) (size : Int) (sls : List (Option Sl)) : Res (AP × Int × Int
     let kept := keep.map (·.1)
     pure ({ shape := kept.map (·.n), strides := kept.map (·.stride), fin := true, o := order }, ndStart, ndEnd)
 
+/-- `shape.go:Shape.S` — the shape-only slicing calculator (never rounds a stepped length up). -/
+def shapeS (shape : Shape) (sls : List (Option Sl)) : Res Shape := do
+  if sls.length > shape.length then throwErr "dimMismatch"
+  let rec loop : Shape → List (Option Sl) → Res (List (Int × Bool))
+    | [], _ => .ok []
+    | size :: rest, sls => do
+      let sl := sls.head?.join
+      let (start, stop, step) ← sliceDetails sl size
+      let n := if step > 0 then (let q := goDiv (stop - start) step; if q ≤ 0 then 1 else q) else stop - start
+      let tl ← loop rest sls.tail
+      pure ((n, sl.isSome) :: tl)
+  let ns ← loop shape sls
+  pure ((ns.filter (fun (n, given) => !(n == 1 && given))).map (·.1))
+
 /-- `utils.go:UnsafePermute` swap loop for dims ≥ 3 on one list (applied to shape and strides alike). -/
 def swapAt {α} (xs : List α) (i j : Nat) : List α :=
   match xs[i]?, xs[j]? with
